@@ -70,3 +70,44 @@ def arrays_of(o, _depth=0, _out=None):
     elif hasattr(o, "__dict__"):
         arrays_of(vars(o), _depth + 1, out)
     return out
+
+
+# ------------------------------------------------------------------ semantic snapshots ----
+def _pub(o, name, default=None):
+    try:
+        return getattr(o, name)
+    except Exception:                                      # noqa
+        return default
+
+
+def semantic_snap(o, _depth=0):
+    """Snapshot of the OBSERVABLE state of hvsrpy objects (what the public API exposes), so that a
+    refactoring which keeps private caches or renames private attributes does not look like a change.
+    Unknown objects fall back to the generic deep snapshot."""
+    if _depth > 6:
+        return ("deep",)
+    cls = type(o).__name__
+    if cls == "TimeSeries":
+        return ("TimeSeries", snap(np.asarray(o.amplitude)), snap(float(o.dt_in_seconds)))
+    if cls == "SeismicRecording3C":
+        return ("SeismicRecording3C", semantic_snap(o.ns), semantic_snap(o.ew), semantic_snap(o.vt),
+                snap(float(o.degrees_from_north)), snap(o.meta))
+    if cls in ("HvsrCurve", "HvsrDiffuseField", "Psd"):
+        return (cls, snap(np.asarray(o.frequency)), snap(np.asarray(o.amplitude)),
+                snap(_pub(o, "peak_frequency")), snap(_pub(o, "peak_amplitude")), snap(_pub(o, "meta")))
+    if cls == "HvsrTraditional":
+        vp = np.asarray(o.valid_peak_boolean_mask)
+        try:                                               # per-window peaks of ALL windows through the public API
+            o.valid_peak_boolean_mask = np.ones_like(vp, dtype=bool)
+            pf, pa = np.array(o.peak_frequencies), np.array(o.peak_amplitudes)
+        finally:
+            o.valid_peak_boolean_mask = vp
+        return (cls, snap(np.asarray(o.frequency)), snap(np.asarray(o.amplitude)),
+                snap(np.asarray(o.valid_window_boolean_mask)), snap(vp), snap(pf), snap(pa), snap(o.meta))
+    if cls == "HvsrAzimuthal":
+        return (cls, [semantic_snap(h, _depth + 1) for h in o.hvsrs], snap([float(a) for a in o.azimuths]), snap(o.meta))
+    if isinstance(o, dict):
+        return ("dict", sorted(((str(k), semantic_snap(v, _depth + 1)) for k, v in o.items()), key=lambda kv: kv[0]))
+    if isinstance(o, (list, tuple)):
+        return ("list" if isinstance(o, list) else "tuple", [semantic_snap(x, _depth + 1) for x in o])
+    return snap(o)
